@@ -765,34 +765,38 @@ def check_progress(sa, C, cursors):
             segs.append((s, tgt, path, lo, hi))
     if not segs:
         return False, "no loop segment analysed", 0
-    direction = {}
-    for x in cursors:
-        if all(sg[3][x] >= 0 for sg in segs):
-            direction[x] = +1
-        elif all(sg[4][x] <= 0 for sg in segs):
-            direction[x] = -1
     back = [sg for sg in segs if b.dominates(sg[1], sg[0])]
+    direction = {}
     for (s, tgt, path, lo, hi) in back:
-        strict = [x for x, d_ in direction.items() if (d_ > 0 and lo[x] >= 1) or (d_ < 0 and hi[x] <= -1)]
+        # ranking for the loop of `tgt`: a cursor that is monotone on every segment lying inside that loop (inner loops included;
+        # a helper's cursor that is re-seeded on entry to its own loop is monotone *within* it) and moves strictly on this cycle
+        loop = {x for x in b.live_blocks() if b.dominates(tgt, x) and tgt in b.reachable_from(x)}
+        inside = [sg for sg in segs if all(x in loop for x in sg[2])]
+        strict = []
+        for x in cursors:
+            if all(sg[3][x] >= 0 for sg in inside) and lo[x] >= 1:
+                strict.append((x, +1))
+            elif all(sg[4][x] <= 0 for sg in inside) and hi[x] <= -1:
+                strict.append((x, -1))
         if not strict:
             return False, ("the loop cycle bb%d → … → bb%d (through %s) moves no cursor strictly: %s" % (
                 s, tgt, path, ", ".join("%s changes by [%s, %s]" % ((sa.b.local_name(int(x[1:])) or x) if x[1:].isdigit() else x, lo[x], hi[x]) for x in cursors))), len(segs)
-    # boundedness in the zone invariants of the heads
-    for x, d_ in direction.items():
-        moved = any((d_ > 0 and sg[3][x] >= 1) or (d_ < 0 and sg[4][x] <= -1) for sg in back)
-        if not moved:
-            continue
-        for h in sa.heads:
-            inv = sa.za.states.get(h)
+        # … and that cursor is bounded, in the zone invariant of this loop's head, by a quantity that does not move the same way
+        inv = sa.za.states.get(tgt)
+        bounded = []
+        for x, d_ in strict:
             if inv is None:
                 continue
-            others = [v for v in inv.vars if v != x and (v not in direction or direction[v] == -d_)]
-            if d_ > 0:
-                bounded = any(inv.get(x, v) != INF for v in others)
-            else:
-                bounded = any(inv.get(v, x) != INF for v in others)
-            if not bounded:
-                return False, "cursor %s moves %s without a bound in the invariant of bb%d" % (x, "up" if d_ > 0 else "down", h), len(segs)
+            same_way = {y for y in cursors if y != x and ((d_ > 0 and all(sg[3][y] >= 0 for sg in inside) and any(sg[3][y] >= 1 for sg in inside)) or
+                                                          (d_ < 0 and all(sg[4][y] <= 0 for sg in inside) and any(sg[4][y] <= -1 for sg in inside)))}
+            others = [v for v in inv.vars if v != x and v not in same_way]
+            if (d_ > 0 and any(inv.get(x, v) != INF for v in others)) or (d_ < 0 and any(inv.get(v, x) != INF for v in others)):
+                bounded.append((x, d_))
+        if not bounded:
+            return False, "no strictly moving cursor of the loop at bb%d is bounded in that loop head's invariant (%s)" % (
+                tgt, ", ".join("%s%s" % ((sa.b.local_name(int(x[1:])) or x) if x[1:].isdigit() else x, "↑" if d_ > 0 else "↓") for x, d_ in strict)), len(segs)
+        for x, d_ in bounded:
+            direction.setdefault(x, d_)
     return True, "%d segments between loop heads, %d back-edge segments; monotone cursors: %s" % (
         len(segs), len(back), ", ".join("%s%s" % ((sa.b.local_name(int(x[1:])) or x if x[1:].isdigit() else x), "↑" if d_ > 0 else "↓") for x, d_ in sorted(direction.items()))), len(segs)
 
